@@ -1,6 +1,7 @@
 package main
 
 import (
+	"time"
 	"math/rand"
 	"os"
 	"path/filepath"
@@ -156,6 +157,12 @@ func c19CleanConverts(c c19Case) bool {
 }
 
 func runC19(c c19Case) string {
+	// the machine's own zone is not UTC: an empty LocationName still means UTC on both paths
+	if mz, err := time.LoadLocation("Asia/Kolkata"); err == nil {
+		saved := time.Local
+		time.Local = mz
+		defer func() { time.Local = saved }()
+	}
 	w := newWorkspace()
 	defer w.cleanup()
 	// half of the XLSX cases store plain numbers as number-typed cells (what a spreadsheet program does): both
@@ -168,7 +175,7 @@ func runC19(c c19Case) string {
 			w.writeCSVBook(sub, b)
 		}
 	}
-	ro := runOpts{LocationName: c.location, Package: "pc" + strings.TrimPrefix(c.sheet, "HeroConf")}
+	ro := runOpts{LocationName: c.location, LocationRaw: true, Package: "pc" + strings.TrimPrefix(c.sheet, "HeroConf")}
 	if c.container == "xlsx" {
 		ro.Formats = []format.Format{format.Excel}
 	}
@@ -218,10 +225,8 @@ func runC19(c c19Case) string {
 			_ = protoregistry.GlobalFiles.RegisterFile(rm.GetFile().UnwrapFile())
 		}
 	}
-	opts := []load.Option{}
-	if c.location != "" {
-		opts = append(opts, load.LocationName(c.location))
-	}
+	// the location is handed over as it is, also when empty ("" = UTC)
+	opts := []load.Option{load.LocationName(c.location)}
 	if rewrites != nil {
 		opts = append(opts, load.SubdirRewrites(rewrites))
 	}
